@@ -364,7 +364,7 @@ def obligations(tier):
 
 # ------------------------------------------------------------------------- concrete delivery matrix (end-to-end witnesses of H-STAGE; NOT solver-decided)
 
-CHANNELS = ["nt/file", "nt/files", "nt/gz", "nt/xz", "nt/zip", "nt/zips", "nt/zipdir", "turtle/zips", "turtle/zipdir", "tsv/raw", "tsv/file", "tsv/files", "tsv/gz", "ttl_iter/raw", "ttl_iter/file", "ttl_iter/files", "ttl_iter/gz",
+CHANNELS = ["nt/file", "nt/files", "nt/gz", "nt/xz", "nt/zip", "nt/zips", "nt/zipdir", "nt/gzmulti", "turtle/gzmulti", "turtle/zips", "turtle/zipdir", "tsv/raw", "tsv/file", "tsv/files", "tsv/gz", "ttl_iter/raw", "ttl_iter/file", "ttl_iter/files", "ttl_iter/gz",
             "turtle/raw", "turtle/file", "turtle/files", "turtle/gz", "turtle/zip", "xml/raw", "xml/file", "xml/xz", "n3/raw", "n3/file", "json-ld/raw", "json-ld/file", "rdflib"]
 RDFLIB_REPARSED = ("turtle/", "xml/", "n3/")       # parsed by rdflib once per pass: see finding DELIVERY-rdflib-reparse-bnode-instances
 
@@ -420,6 +420,14 @@ class Delivered:
             return dict(graph_list_of_files_input=[write("a." + ext, render(parts[0])), write("b." + ext, render(parts[1]))], input_format=const)
         if how == "gz":
             return dict(graph_file_input=write("g.%s.gz" % ext, render(self.triples), gzip.open), input_format=const, compression_mode=GZ)
+        if how == "gzmulti":     # one .gz file made of two gzip members (what `cat a.gz b.gz > all.gz` produces); for line-oriented syntaxes the members are the two halves
+            path = os.path.join(self.dir, "g.%s.gz" % ext)
+            whole = render(self.triples)
+            cut = len(render(parts[0])) if fmt in ("nt", "tsv", "ttl_iter") else len(whole) // 2
+            with open(path, "wb") as f:
+                f.write(gzip.compress(whole[:cut].encode("utf-8")))
+                f.write(gzip.compress(whole[cut:].encode("utf-8")))
+            return dict(graph_file_input=path, input_format=const, compression_mode=GZ)
         if how == "xz":
             return dict(graph_file_input=write("g.%s.xz" % ext, render(self.triples), lzma.open), input_format=const, compression_mode=XZ)
         if how in ("zip", "zipdir"):       # zipdir: the members live in a folder of the archive (what `zip -r g.zip data/` produces)
